@@ -19,9 +19,20 @@ Vocabulary (Lemmas/Iso1 … Iso7):
   `Sep s`      — `Inv` and: returned states, cache entries, defaults own pairwise disjoint cells;
   `Good w w' L` — the evaluation that went from `w` to `w'` wrote no cell of `w`, its new cache entries and the cells `L` it
                  hands out are new and mutually disjoint;
-  `Op.target`  — the index of the returned state a caller operation addresses.
+  `Op.target`  — the index of the returned state a caller operation addresses;
+  `refChain d n acts` — the value-level meaning of a chain under the defaults `d` (no heap, no cache);
+  `Agrees h st r`, `EntryOK d P h e`, `SoundW d P w`, `HSound d P s` — a heap state / a cache entry / the cache / a history
+                 agree with that meaning (Lemmas/Iso9 … Iso12);
+  `Closed P`, `KeyOK d P`, `Safe d P` — the class of chains an evaluation stays in, "cache keys determine the meaning"
+                 (what C02/C03 establish for the canonical text), "`getvar` is not applied to a volatile state".
+
+Finding recorded by the last example of section 4: a volatile state is not cloned before a command, `getvar` hands out the
+variable's own object as data, so in `vol/getvar-lst/app-x` the in-place `append` also changes the variable `lst` of the
+returned state (the value-level meaning keeps `lst` at its default).  Nothing leaks to another evaluation (the theorems of
+sections 1-3 hold for all chains), but the "result = meaning" theorem needs the hypothesis `Safe`.
 -/
-import LiquerProofs.Lemmas.Iso7
+import LiquerProofs.Lemmas.Iso13
+import LiquerProofs.Lemmas.IsoExample
 
 namespace Liquer.C10
 
@@ -117,6 +128,163 @@ theorem returned_never_changes {s : Hist} (sp : Sep s) (ops : List Op) {j : Nat}
     (ht : ∀ op ∈ ops, op.target ≠ some j) :
     (run s ops).nth j = some st ∧ absState (run s ops).w.heap st = absState s.w.heap st := run_returned sp ops hn ht
 
+/-! ### 4. every result is the value-level meaning of its chain, whatever happened before -/
+
+/-- `Safe` follows from a syntactic condition: no `vol` to the left of a `getvar` in the chains of the class -/
+theorem safe_of_no_vol_before_getvar {d : List (Str × Val)} {P : List Act → Prop}
+    (hsyn : ∀ acts act, P acts → acts.getLast? = some act → String.ofList act.name = "getvar" →
+      ∀ b ∈ acts.dropLast, String.ofList b.name ≠ "vol") : Safe d P := safe_of_syntactic hsyn
+
+/-- `KeyOK` follows from injectivity of the key text on the class -/
+theorem keyOK_of_injective_keys {d : List (Str × Val)} {P : List Act → Prop}
+    (hinj : ∀ a b acts acts', P acts → P acts' → keyOf a acts = keyOf b acts' → acts = acts') : KeyOK d P :=
+  keyOK_of_injective hinj
+
+example : Closed Ex.P0 ∧ KeyOK Ex.d0 Ex.P0 ∧ Safe Ex.d0 Ex.P0 := ⟨Ex.closed0, Ex.keyOK0, Ex.safe0⟩
+
+/-- one evaluation in any well-formed world with a sound cache: the cache stays sound and the returned state agrees with
+the meaning of the chain — data, variables, volatility, caching — for every fuel -/
+theorem eval_is_meaning {d : List (Str × Val)} {P : List Act → Prop} (hC : Closed P) (hK : KeyOK d P) (hS : Safe d P)
+    (n : Nat) (w : World) (absolute : Bool) (acts : List Act) (i : Inv w) (sw : SoundW d P w) (hP : P acts) :
+    SoundW d P (evalChain n w absolute acts).1 ∧
+    ∀ st, (evalChain n w absolute acts).2 = .st st → ∃ m r, refChain d m acts = some r ∧
+      (absState (evalChain n w absolute acts).1.heap st).data = r.data ∧
+      (absState (evalChain n w absolute acts).1.heap st).vars = r.vars ∧
+      (absState (evalChain n w absolute acts).1.heap st).volatile = r.volatile ∧
+      (absState (evalChain n w absolute acts).1.heap st).caching = r.caching := by
+  have h := (eval_sound hC hK hS n).1 w absolute acts i sw hP _ _ rfl
+  refine ⟨h.1, fun st hst => ?_⟩
+  have h2 := h.2
+  rw [hst] at h2
+  obtain ⟨m, r, h3, h4, -⟩ := h2
+  exact ⟨m, r, h3, h4.abs⟩
+
+/-- separation and soundness of the cache survive every history: evaluations of chains of the class (with commands that
+mutate in place) and arbitrary mutations by the caller -/
+theorem history_sound {d : List (Str × Val)} {P : List Act → Prop} (hC : Closed P) (hK : KeyOK d P) (hS : Safe d P)
+    {s : Hist} (hs : HSound d P s) (ops : List Op) (hP : ∀ q, Op.eval q ∈ ops → P q) : HSound d P (run s ops) :=
+  hs.run hC hK hS ops hP
+
+/-- what the cache serves: at any point of any history every entry is ready, non-volatile, cacheable and agrees with the
+meaning of every chain of the class that has its key -/
+theorem cache_entry_is_meaning {d : List (Str × Val)} {P : List Act → Prop} (hK : KeyOK d P) {s : Hist}
+    (hs : HSound d P s) {e : Str × HState} (he : e ∈ s.w.cache) {absolute : Bool} {acts : List Act} (hP : P acts)
+    (hk : keyOf absolute acts = e.1) :
+    ∃ m r, refChain d m acts = some r ∧ (absState s.w.heap e.2).data = r.data ∧ (absState s.w.heap e.2).vars = r.vars ∧
+      (absState s.w.heap e.2).volatile = false ∧ (absState s.w.heap e.2).caching = true ∧
+      (absState s.w.heap e.2).status = statusReady := by
+  obtain ⟨abs', acts', m, r, h1, h2, h3, h4, h5, h6, h7⟩ := hs.sound.entries e he
+  refine ⟨m, r, ?_, h4.abs.1, h4.abs.2.1, h4.abs.2.2.1.trans h5, h4.abs.2.2.2.trans h6, h7⟩
+  rw [hK absolute abs' acts acts' hP h1 (hk.trans h2.symm) m]
+  exact h3
+
+/-- THE isolation statement: start from an empty cache with configured defaults `dd` (allocated, distinct names).  After ANY
+history — evaluations of chains of the class, in-place mutating commands, the caller mutating every state it was given —
+the state returned by a final evaluation of `q` has the data, variables, volatility and caching of the value-level meaning of
+`q` under the defaults as they were configured at the start.  Nothing an earlier evaluation or the caller did is visible. -/
+theorem result_is_meaning {P : List Act → Prop} (hC : Closed P) {h0 : Heap} {dd : List (Str × HV)} (b : Bool) (wf : h0.WF)
+    (hd : ∀ a ∈ cellsVars dd, a < h0.next) (hkeys : (dd.map Prod.fst).Nodup) (hK : KeyOK (absVars h0 dd) P)
+    (hS : Safe (absVars h0 dd) P) (ops : List Op) (q : List Act) (hP : ∀ q', Op.eval q' ∈ ops ++ [.eval q] → P q')
+    (st : HState)
+    (hst : (run { w := { heap := h0, defaults := dd, cacheOn := b } } (ops ++ [.eval q])).returned.getLast? = some (some st)) :
+    ∃ m r, refChain (absVars h0 dd) m q = some r ∧
+      (absState (run { w := { heap := h0, defaults := dd, cacheOn := b } } (ops ++ [.eval q])).w.heap st).data = r.data ∧
+      (absState (run { w := { heap := h0, defaults := dd, cacheOn := b } } (ops ++ [.eval q])).w.heap st).vars = r.vars ∧
+      (absState (run { w := { heap := h0, defaults := dd, cacheOn := b } } (ops ++ [.eval q])).w.heap st).volatile = r.volatile ∧
+      (absState (run { w := { heap := h0, defaults := dd, cacheOn := b } } (ops ++ [.eval q])).w.heap st).caching = r.caching := by
+  have hs0 : HSound (absVars h0 dd) P { w := { heap := h0, defaults := dd, cacheOn := b } } := HSound.init b wf hd hkeys
+  have hs := hs0.run hC hK hS ops (fun q' hq' => hP q' (List.mem_append_left _ hq'))
+  rw [run_append] at hst ⊢
+  have he := (hs.eval hC hK hS (hP q (by simp))).2
+  rw [last_returned] at hst
+  generalize (evalChain (evalFuel q) { (run _ ops).w with calls := [] } false q).2 = r at hst he
+  cases r with
+  | fail => simp [resOpt] at hst
+  | st st' =>
+    obtain rfl : st' = st := by simpa [resOpt] using hst
+    obtain ⟨m, r, h1, h2⟩ := he st' rfl
+    exact ⟨m, r, h1, h2.abs⟩
+
+/-! ### 5. variable scope on the value-level meaning -/
+
+/-- a `let-k-v` step makes `getvar-k` to its right return `v` -/
+theorem let_visible_to_the_right {d : List (Str × Val)} {n : Nat} {acts : List Act} {r : RState} (k v : Str)
+    (hne : acts ≠ []) (h : refChain d n acts = some r) :
+    ∃ m, refChain d m (acts ++ [.mk "let".toList [.text k, .text v], .mk "getvar".toList [.text k]]) =
+      some { r with data := .str v, vars := setVarV r.vars k (.str v) } := let_visible_right k v hne h
+
+/-- every chain starts from the configured defaults … -/
+theorem chain_starts_from_defaults (d : List (Str × Val)) (n : Nat) (act : Act) :
+    refChain d (n + 1) [act] =
+      (refArgs d n act.args).bind (fun args => cmdV { vars := d } (String.ofList act.name) args) :=
+  first_step_from_defaults n act
+
+/-- … and so does every link argument: its value is the meaning of the linked chain under the defaults, whatever variables
+the steps to the left of the action have set -/
+theorem link_argument_from_defaults (d : List (Str × Val)) (n : Nat) (q : List Act) (rest : List Arg) :
+    refArgs d (n + 1) (.link q :: rest) = (refChain d n q).bind (fun v => (refArgs d n rest).map (fun vs => v.data :: vs)) :=
+  refArgs_link d n q rest
+
+/-- a chain that never assigns `k` reads the configured default of `k` -/
+theorem unassigned_variable_is_default {d : List (Str × Val)} (k : Str) {m : Nat} {acts : List Act} {r : RState}
+    (h : refChain d m acts = some r) (hn : NoSet k acts) : getVarV r.vars k = getVarV d k :=
+  unset_var_is_default k m acts r h hn
+
+example : NoSet (Ex.S "lst") Ex.qAGX ∧ (refChain Ex.d0 9 Ex.qAGX).isSome = true := by
+  refine ⟨fun b hb hn => ?_, rfl⟩
+  simp only [Ex.qAGX, List.mem_cons, List.not_mem_nil, or_false] at hb
+  rcases hb with rfl | rfl | rfl <;> exact absurd hn (by decide)
+
+/-! ### 6. a concrete history -/
+
+section example_history
+open Ex
+
+/-- data / variables of the `i`-th returned state as they are now -/
+def dataOf (s : Hist) (i : Nat) : Option Val := (s.nth i).map (fun st => (absState s.w.heap st).data)
+def varsOf (s : Hist) (i : Nat) : Option (List (Str × Val)) := (s.nth i).map (fun st => (absState s.w.heap st).vars)
+
+def zz : List Val := [.str (S "zz")]
+
+/-- evaluate `mk-a/app-b`; the caller overwrites the returned list; evaluate it again, then `mk-a/app-b/app-c` (whose
+predecessor comes from the cache and is appended to in place), then `mk-a/getvar-lst/app-x` (appends to the variable's
+object), overwrite the variable `lst` of that result, evaluate it again -/
+def ops1 : List Op :=
+  [.eval qAB, .mutData 0 zz, .eval qAB, .eval qABC, .eval qAGX, .mutVar 3 (S "lst") zz, .eval qAGX]
+
+example : Sep (run s0 ops1) ∧ HSound d0 P0 (run s0 ops1) := by
+  refine ⟨sep_run sep0 _, history_sound closed0 keyOK0 safe0 (HSound.init true h0_wf dd_lt dd_keys) _ (fun q hq => ?_)⟩
+  simp only [ops1, List.mem_cons, Op.eval.injEq, List.not_mem_nil, or_false, reduceCtorEq, false_or] at hq
+  rcases hq with rfl | rfl | rfl | rfl | rfl <;> simp [P0, chains]
+
+example :
+    dataOf (run s0 ops1) 0 = some (.list zz) ∧
+    dataOf (run s0 ops1) 1 = some (.list [.str (S "a"), .str (S "b")]) ∧
+    dataOf (run s0 ops1) 2 = some (.list [.str (S "a"), .str (S "b"), .str (S "c")]) ∧
+    dataOf (run s0 ops1) 3 = some (.list [.str (S "d1"), .str (S "x")]) ∧
+    varsOf (run s0 ops1) 3 = some [(S "lst", .list zz)] ∧
+    dataOf (run s0 ops1) 4 = some (.list [.str (S "d1"), .str (S "x")]) ∧
+    varsOf (run s0 ops1) 4 = some d0 ∧
+    absVars (run s0 ops1).w.heap (run s0 ops1).w.defaults = d0 :=
+  ⟨rfl, rfl, rfl, rfl, rfl, rfl, rfl, rfl⟩
+
+/-- `ext` mutates its link argument in place (`o.append("m")`): the cached value of the link `/mk-z` is not affected -/
+example :
+    dataOf (run s0 [.eval qAE, .eval [.mk (S "mk") [.text (S "b")], extZ]]) 0 = some (.list [.str (S "a"), .str (S "z")]) ∧
+    dataOf (run s0 [.eval qAE, .eval [.mk (S "mk") [.text (S "b")], extZ]]) 1 = some (.list [.str (S "b"), .str (S "z")]) :=
+  ⟨rfl, rfl⟩
+
+/-- why `Safe` is needed (finding): in the volatile chain `vol/getvar-lst/app-x` the state is not cloned between steps, the
+data IS the variable's object, and the `append` changes the variable `lst` of the returned state; the value-level meaning
+keeps the default.  (The defaults themselves and every other state are untouched — `defaults_never_change`.) -/
+example :
+    varsOf (run s0 [.eval [vol, getL, appX]]) 0 = some [(S "lst", .list [.str (S "d1"), .str (S "x")])] ∧
+    (refChain d0 9 [vol, getL, appX]).map (·.vars) = some d0 ∧
+    absVars (run s0 [.eval [vol, getL, appX]]).w.heap (run s0 [.eval [vol, getL, appX]]).w.defaults = d0 :=
+  ⟨rfl, rfl, rfl⟩
+
+end example_history
+
 end Liquer.C10
 
--- OBLIGATIONS: Liquer.C10.eval_frame Liquer.C10.args_frame Liquer.C10.sep_init Liquer.C10.sep_step Liquer.C10.sep_run Liquer.C10.caller_isolation Liquer.C10.eval_isolation Liquer.C10.defaults_never_change Liquer.C10.returned_never_changes
+-- OBLIGATIONS: Liquer.C10.eval_frame Liquer.C10.args_frame Liquer.C10.sep_init Liquer.C10.sep_step Liquer.C10.sep_run Liquer.C10.caller_isolation Liquer.C10.eval_isolation Liquer.C10.defaults_never_change Liquer.C10.returned_never_changes Liquer.C10.safe_of_no_vol_before_getvar Liquer.C10.keyOK_of_injective_keys Liquer.C10.eval_is_meaning Liquer.C10.history_sound Liquer.C10.cache_entry_is_meaning Liquer.C10.result_is_meaning Liquer.C10.let_visible_to_the_right Liquer.C10.chain_starts_from_defaults Liquer.C10.link_argument_from_defaults Liquer.C10.unassigned_variable_is_default
